@@ -200,6 +200,34 @@ def spec_defaults(c, base_has, base_val, parts, osenv, key):
     return pres, val
 
 
+def _kept_objects(stub, depth=0):
+    """every container reachable from the fields of a stub (the object's long-lived state)"""
+    out = []
+    def walk(v, d):
+        if d > 4:
+            return
+        v0 = unflex(v) if isinstance(v, FlexDict) else v
+        if isinstance(v0, (dict, list, MapBox)):
+            out.append(v0)
+            if v is not v0:
+                out.append(v)
+        if isinstance(v0, dict):
+            for x in v0.values():
+                walk(x, d + 1)
+        elif isinstance(v0, list):
+            for x in v0:
+                walk(x, d + 1)
+    for v in object.__getattribute__(stub, '_fields').values():
+        walk(v, 0)
+    return out
+
+
+def _same_object(a, b):
+    a0 = unflex(a) if isinstance(a, FlexDict) else a
+    b0 = unflex(b) if isinstance(b, FlexDict) else b
+    return a is b or a0 is b0
+
+
 class EnvironmentWithName(Target):
     prop = 'C17'
     name = 'FlowIRExperimentConfiguration.environmentWithName'
@@ -246,7 +274,7 @@ class EnvironmentWithName(Target):
             c.require(Not(has(sysvars, LBL_DEFAULTS)))
         c.require(Not(has(osenv, LBL_DEFAULTS)))
         c.ghost['E1_final'] = None
-        return State(args=[this, name], kwargs={'expand': True, 'remove_defaults_key': remove}, name=name, sysvars=sysvars,
+        return State(args=[this, name], kwargs={'expand': True, 'remove_defaults_key': remove}, name=name, sysvars=sysvars, this=this,
                      osenv=osenv, platform=platform, holder=holder, remove=remove, key=c.str('anykey'))
 
     @staticmethod
@@ -306,6 +334,10 @@ class EnvironmentWithName(Target):
         sym = c.mode == 'sym'
         empty = MapBox(SymMap.empty(z3.StringSort(), z3.StringSort())) if sym else {}
         sysm = st.sysvars if st.sysvars is not None else empty
+        # environmentForNode ADDS variables to the dictionary it gets (interpreter paths): the result must be the caller's
+        # own object, not one that the configuration keeps (system variables, a cache, the launch environment)
+        kept = _kept_objects(st.this) + [st.osenv]
+        private = not any(_same_object(res, x) for x in kept)
         if kind == 'default':
             layer, parts = sel if sel is not None else (st.osenv, None)
         elif kind == 'none':
@@ -322,7 +354,7 @@ class EnvironmentWithName(Target):
             p, v = spec_defaults(c, base_has, base_val, parts, st.osenv, key)
             return And(p, Not(And(Eq(key, LBL_DEFAULTS), drop_defaults))), v
 
-        cl = []
+        cl = [('callers-get-a-private-dictionary', private)]
         if not sym:
             # native evaluation of the statement over every key that occurs anywhere
             keys = set(res) | set(sysm) | set(layer) | set(st.osenv) | set(parts) | {k}
